@@ -30,6 +30,7 @@ if TYPE_CHECKING:
 logger = logging.getLogger(__name__)
 
 LITERAL_CRYPT = LIT("Crypt")
+LITERAL_XREF = LIT("XRef")
 
 # Abbreviation of Filter names in PDF 4.8.6. "Inline Images"
 LITERALS_FLATE_DECODE = (LIT("FlateDecode"), LIT("Fl"))
@@ -169,6 +170,11 @@ def decipher_all(decipher: DecipherCallable, objid: int, genno: int, x: object) 
     elif isinstance(x, dict):
         for k, v in x.items():
             x[k] = decipher_all(decipher, objid, genno, v)
+    elif isinstance(x, PDFStream):
+        # Strings in a stream dictionary are encrypted like any other string.
+        # Cross-reference streams are the exception: they are never encrypted.
+        if x.attrs.get("Type") is not LITERAL_XREF:
+            decipher_all(decipher, objid, genno, x.attrs)
     return x
 
 
